@@ -234,8 +234,22 @@ def main():
         log(f"code tie: {len(ct['broken'])} equivalence theorem(s) between the code as written and the model no longer check "
             f"({', '.join(ct['broken'])}); not an alarm by itself — the correspondence check runs at the thorough budget")
         ctx.escalated = True
+    # wall-clock watchdog: a check that cannot complete is not a passing check. On the unchanged tree every check ends
+    # in seconds to minutes; if the implementation has been changed so that a call never returns, the alarm interrupts
+    # it and the traceback (which then passes through the library) is reported as a violation below.
+    import signal
+
+    def _alarm(signum, frame):
+        raise TimeoutError(f"check {pid} did not complete within its wall-clock limit")
+    limit = int(os.environ.get("VERIF_WALL_LIMIT", "10800" if tier == "thorough" else "1500"))
+    try:
+        signal.signal(signal.SIGALRM, _alarm)
+        signal.alarm(limit)
+    except (ValueError, AttributeError):
+        pass
     try:
         result = props.CHECKS[pid](ctx)
+        signal.alarm(0)
     except Exception:
         tb = traceback.format_exc()
         log(tb)
